@@ -64,6 +64,7 @@ struct W<'a> {
     t: &'a mut Tape,
     sw: LefSwarm,
     out: String,
+    recent: Vec<String>,
 }
 impl<'a> W<'a> {
     fn opt(&mut self) -> bool {
@@ -111,6 +112,21 @@ impl<'a> W<'a> {
         self.out.push('\n');
     }
     fn name(&mut self, prefix: &str) -> String {
+        // sometimes the same name again (neighbouring blocks on one layer, a pin named like another, ...)
+        if !self.recent.is_empty() && self.t.chance(1, 6) {
+            let i = self.t.draw(self.recent.len() as u64) as usize;
+            return self.recent[i].clone();
+        }
+        let s = self.fresh_name(prefix);
+        if self.recent.len() < 6 {
+            self.recent.push(s.clone());
+        } else {
+            let i = self.t.draw(6) as usize;
+            self.recent[i] = s.clone();
+        }
+        s
+    }
+    fn fresh_name(&mut self, prefix: &str) -> String {
         let n = self.t.draw(40);
         let base = match self.t.draw(8) {
             0 => format!("{}{}", prefix, n),
@@ -860,7 +876,7 @@ impl<'a> W<'a> {
 /// A LEF text following the LEF syntax (supported subset), and the swarm it was drawn under
 pub fn gen_lef_text(t: &mut Tape, allow_utf8: bool) -> (String, LefSwarm) {
     let sw = LefSwarm::draw(t, allow_utf8);
-    let mut w = W { t, sw: sw.clone(), out: String::new() };
+    let mut w = W { t, sw: sw.clone(), out: String::new(), recent: Vec::new() };
     w.lib();
     (w.out, sw)
 }
